@@ -192,3 +192,25 @@ func callIndex(row *Row, pred func(*Effect) bool) int {
 	}
 	return -1
 }
+
+// sameObj compares two objects modulo generic instantiation (fields and methods of
+// an instantiated generic type are distinct objects from those of its origin).
+func sameObj(a, b types.Object) bool {
+	if a == nil || b == nil {
+		return false
+	}
+	if a == b {
+		return true
+	}
+	switch x := a.(type) {
+	case *types.Var:
+		if y, ok := b.(*types.Var); ok {
+			return x.Origin() == y.Origin()
+		}
+	case *types.Func:
+		if y, ok := b.(*types.Func); ok {
+			return x.Origin() == y.Origin()
+		}
+	}
+	return false
+}
